@@ -8,13 +8,17 @@ cd "$W" || exit 2
 git checkout -q -- . ; git clean -fdq -e target
 git checkout -q --detach "$(git -C /repo rev-parse HEAD)" 2>/dev/null
 run_demo() {
+  # demonstrations may refer to their own files as SEED/... relative to the worktree root
+  rm -rf "$W/SEED"; mkdir -p "$W/SEED"; cp -r "$D"/. "$W/SEED/"
   if [ -f "$D/demo.sh" ]; then (cd "$W" && WORKTREE="$W" timeout 900 bash "$D/demo.sh" "$W" 2>&1 | sed -e 's/0x[0-9a-f]\{6,\}/ADDR/g' -e 's/thread .<unnamed>. ([0-9]*)/thread/'; echo "exit=$?");
-  elif [ -f "$D/demo.yl" ]; then (cd "$W" && timeout 120 cargo run -q --offline -p yarel-cli -- "$D/demo.yl" 2>&1 | sed -e 's/0x[0-9a-f]\{6,\}/ADDR/g' -e 's/thread .<unnamed>. ([0-9]*)/thread/'; echo "exit=$?"); else echo "no demo"; fi
+  elif [ -f "$D/demo.yl" ]; then (cd "$W" && timeout 120 cargo run -q --offline -p yarel-cli -- SEED/demo.yl 2>&1 | sed -e 's/0x[0-9a-f]\{6,\}/ADDR/g' -e 's/thread .<unnamed>. ([0-9]*)/thread/'; echo "exit=$?"); else echo "no demo"; fi
 }
 clean_out=$(run_demo)
+rm -rf "$W/SEED"
 git apply "$D/patch.diff" || { echo "RESULT $D patch-does-not-apply"; exit 1; }
 tests=$(cargo test --workspace --no-fail-fast --offline 2>&1 | grep -E "^test result|^test .* FAILED")
 broken_out=$(run_demo)
+rm -rf "$W/SEED"
 git checkout -q -- .
 fails=$(echo "$tests" | grep -c "FAILED" )
 other=$(echo "$tests" | grep "FAILED" | grep -v number_long_decimal | grep -v "^test result" | wc -l)
